@@ -79,6 +79,8 @@ pub mod c39;
 #[cfg(feature = "full")]
 pub mod c40;
 #[cfg(feature = "full")]
+pub mod c41;
+#[cfg(feature = "full")]
 pub mod c42;
 pub mod c38;
 
@@ -132,6 +134,7 @@ pub fn all() -> Vec<Property> {
         v.push(Property { id: "C37", level: "exploration", build: c37::build });
         v.push(Property { id: "C39", level: "exploration", build: c39::build });
         v.push(Property { id: "C40", level: "exploration", build: c40::build });
+        v.push(Property { id: "C41", level: "exploration", build: c41::build });
         v.push(Property { id: "C42", level: "exploration", build: c42::build });
         v.push(Property { id: "C38", level: "exploration", build: c38::build });
     }
